@@ -48,6 +48,7 @@ struct Elem {
     uni::Spec spec;
     std::string name;
     bool scaled_big = false;   /* payload = 5 containers + 3 */
+    bool noise = false;        /* payload bytes from a fixed generator: incompressible, the compressor's worst case */
 };
 
 static std::vector<Elem> alphabet() {
@@ -77,6 +78,8 @@ static std::vector<Elem> alphabet() {
     add("SerialEvent", {{"flags", 8}}, {}, "SerialCompact");
     add("AppText", {}, {{"text", 0}}, "AppTextBig", true);
     add("RestorePointContainer", {}, {{"data", 6}}, "RestorePointContainer");
+    add("AppText", {}, {{"text", 0}}, "AppTextNoise", true);
+    a.back().noise = true;
     return a;
 }
 
@@ -92,7 +95,14 @@ struct Built {
 static ObjectHeaderBase * make(const Elem & e, long cont) {
     uni::Spec s = e.spec;
     if (e.scaled_big) s.shape["text"] = (size_t)std::min<long>(5 * cont + 3, 700 * 1024);
-    return uni::build(s);
+    ObjectHeaderBase * o = uni::build(s);
+    if (e.noise)
+        if (auto * at = dynamic_cast<AppText *>(o)) {
+            /* one fixed representative of the incompressible inputs (the same bytes in every run) */
+            uint64_t x = 0x9e3779b97f4a7c15ull;
+            for (auto & ch : at->text) { x ^= x << 13; x ^= x >> 7; x ^= x << 17; ch = (char)(x >> 32); }
+        }
+    return o;
 }
 
 static Built prebuild(const Elem & e, long cont) {
